@@ -524,6 +524,9 @@ def threading(eng: Engine, ctx: Ctx, rid: str, model: DecoderModel):
                 pre = (info.get("pre") or {}).get(t[2])
                 end = (info.get("body_end") or {}).get(t[2])
                 return pre is not None and valid_idx(pre, seen | {key}) and (end is None or valid_idx(end, seen | {key}))
+            if q == eng.group_routine and t[0] == "bin" and t[1] == "+" and t[3][0] == "list" and len(t[3][1]) == 1:
+                # the group routine may hand its repeats a copy of the stack extended by the new level (what that level holds is C03-D6's business)
+                return valid_idx(t[2], seen)
             return False
 
         disp_name = eng.dispatch_routine.split(".")[-1]
@@ -680,7 +683,9 @@ def groups(eng: Engine, ctx: Ctx, rid6: str, rid7: str, rid8: str, model: Decode
                 plus = 0
                 if core[0] == "bin" and core[1] == "+" and core[3] == ("const", 1):
                     core, plus = core[2], 1
-                okc = core[0] == "call" and core[2] == ("builtin", "getattr") and core[3] == (("self",), want[1]) and plus == (1 if des.partition("+")[0] in facts["count_plus_one"] else 0)
+                from .util import strparts
+
+                okc = core[0] == "call" and core[2] == ("builtin", "getattr") and len(core[3]) == 2 and core[3][0] == ("self",) and strparts(core[3][1]) == strparts(want[1]) and plus == (1 if des.partition("+")[0] in facts["count_plus_one"] else 0)
         if not okc:
             bad.setdefault("count", []).append((des, show(cnt)[:90] if cnt else show(it)[:90]))
             continue
@@ -693,11 +698,22 @@ def groups(eng: Engine, ctx: Ctx, rid6: str, rid7: str, rid8: str, model: Decode
         want_idx = elem if first == 1 else (("bin", "+", elem, ("const", 1 - first)) if first is not None and first < 1 else None)
         oki = (len(pushes) == 1 and len(pops) == 1 and len(sets) == 1 and want_idx is not None and sets[0].term == want_idx and pushes[0].seq < sets[0].seq < pops[0].seq
                and pops[0].term[2][1][0] in ("loopout", "param"))
+        functional = False
+        if not oki and not pushes and not pops and not sets and want_idx is not None:
+            # functional form: every repeat gets a fresh copy `index + [i]` of the caller's stack, the caller's own list is never touched and is what is returned
+            inner_f = [e for e in se.effects if e.kind == "call" and len(e.loops) == 2 and e.loops[0] == lid and is_self_call(e.term, d.name)]
+            args_ok = bool(inner_f) and all(len(e.term[3]) >= 4 and e.term[3][3][0] == "bin" and e.term[3][3][1] == "+" and e.term[3][3][2] == idx0 and e.term[3][3][3][0] == "list"
+                                            and e.term[3][3][3][1] == (want_idx,) for e in inner_f)
+            rets_f = [r for r in se.effects if r.kind == "return"]
+            ret_ok = bool(rets_f) and all(r.term[0] == "tuple" and len(r.term[1]) == 2 and r.term[1][1] == idx0 for r in rets_f)
+            mutated = [e for e in se.effects if (e.kind == "call" and e.term[2][0] == "attr" and e.term[2][1] == idx0 and e.term[2][2] in ("append", "pop", "extend", "insert", "clear", "remove", "sort", "reverse"))
+                       or (e.kind in ("setitem", "delitem") and e.target and e.target[1] == idx0)]
+            functional = oki = args_ok and ret_ok and not mutated
         if not oki:
             bad.setdefault("index discipline", []).append((des, f"push {len(pushes)} set {[show(s.term) for s in sets]} pop {len(pops)}"))
             continue
         # push / pop balance on every exit: no return between the push and the pop (a level left on the stack shifts every later index)
-        early = [r for r in se.effects if r.kind in ("return",) and pushes[0].seq < r.seq < pops[0].seq]
+        early = [r for r in se.effects if r.kind in ("return",) and pushes[0].seq < r.seq < pops[0].seq] if not functional else []
         if early:
             bad.setdefault("index level left on the stack", []).append((des, f"return at line {getattr(early[0].node, 'lineno', 0)} after the level was pushed and before it is popped"))
             continue
